@@ -1299,6 +1299,15 @@ fn field_item(i: u64) -> Option<(String, Vec<Glyph>, Option<Layout>)> {
         return Some(("coordinates at the int16 limits, deltas ±32767/−32768".into(), vec![Glyph::Simple(SimpleGlyph::from_contours(vec![pts])), comp_of(0)], None));
     }
     idx -= 1;
+    // ---- the largest point counts endPtsOfContours can express (last endPt 0xFFFE / 0xFFFF; after seeded miss C16-13)
+    if idx < 2 {
+        let n = 65535usize + idx as usize;
+        let pts: Vec<Pt> = (0..n).map(|k| ((k % 256) as i16, (k / 256) as i16, k % 3 != 1)).collect();
+        let split = 40_000usize;
+        let contours = if idx == 0 { vec![pts] } else { vec![pts[..split].to_vec(), pts[split..].to_vec()] };
+        return Some((format!("simple glyph with {} points (last endPt {:#X})", n, n - 1), vec![Glyph::Simple(SimpleGlyph::from_contours(contours)), comp_of(0)], None));
+    }
+    idx -= 2;
     // ---- instruction lengths (simple / composite)
     let ilens = [254usize, 255, 256, 257, 65535];
     if (idx as usize) < ilens.len() * 2 {
@@ -1390,7 +1399,7 @@ fn field_item(i: u64) -> Option<(String, Vec<Glyph>, Option<Layout>)> {
     None
 }
 
-const N_FIELD_ITEMS: u64 = 1 + 1 + 10 + 16 + 1 + 3 + 8 + 9;
+const N_FIELD_ITEMS: u64 = 1 + 1 + 2 + 10 + 16 + 1 + 3 + 8 + 9;
 
 fn boundary_item(i: u64, rec: &mut Rec) -> CaseResult {
     let (name, glyphs, layout) = if i < N_RUN_ITEMS {
